@@ -32,6 +32,7 @@ type simRegion struct {
 	name        []byte
 	addr        string
 	faults      []string // exception kinds answered to the next requests (probes included)
+	bounce      []string // hbase:meta reports these addresses in turn; all of them host the region
 }
 
 func (r *simRegion) fq() []byte {
@@ -291,7 +292,7 @@ func (s *simConn) serve(call hrpc.Call) {
 	}
 	var reg *simRegion
 	for _, x := range c.regions {
-		if string(x.name) == sv.region && x.addr == s.addr {
+		if string(x.name) == sv.region && (x.addr == s.addr || contains(x.bounce, s.addr)) {
 			reg = x
 		}
 	}
@@ -357,6 +358,10 @@ func (c *simCluster) metaScan(r *hrpc.Scan) *pb.ScanResponse {
 	}
 	if best == nil {
 		return resp
+	}
+	if len(best.bounce) > 0 {
+		best.addr = best.bounce[0]
+		best.bounce = append(best.bounce[1:], best.bounce[0])
 	}
 	ns := best.ns
 	if len(ns) == 0 {
@@ -440,6 +445,15 @@ func (c *simCluster) merge(r1, r2 *simRegion, addr string) {
 	c.remove(r1)
 	c.remove(r2)
 	c.addRegion(r1.ns, r1.table, r1.start, r2.stop, addr)
+}
+
+func contains(l []string, x string) bool {
+	for _, y := range l {
+		if y == x {
+			return true
+		}
+	}
+	return false
 }
 
 func classOf(err error) string {
